@@ -209,10 +209,61 @@ def measure(np, build, call, receiver=None):
         "before": {p: v for p, v in before.items() if p in changed},
         "after": {p: v for p, v in after.items() if p in changed},
         "changed": changed,
-        "shared": shared[:12],
+        "shared": shared[:40],
         "vis_result": vis_result[:12],
         "vis_operand": vis_operand[:12],
         "n_res_arrays": n_res_arrays, "n_opd_arrays": n_opd_arrays,
         "poked": [poked_res, poked_opd],
         "result_type": type(result).__name__,
     }
+
+
+# ---- memory-layout variants of the operands (wave 3) ---------------------------------------------------------
+LAYOUTS = ("C", "F", "strided")
+
+
+def lay(np, a, mode):
+    """a in another memory layout, same dtype/shape/contents: C-contiguous, F-contiguous, or a non-contiguous view
+    (every other row of an array twice as long) — what a caller may legitimately hand over (a slice of his data)"""
+    if not isinstance(a, np.ndarray) or a.ndim == 0 or a.size == 0:
+        return a
+    if mode == "C":
+        return np.ascontiguousarray(a)
+    if mode == "F":
+        return np.asfortranarray(a)
+    if mode == "strided":
+        big = np.zeros((2 * a.shape[0],) + tuple(a.shape[1:]), dtype=a.dtype)
+        big[::2] = a
+        return big[::2]
+    raise ValueError(mode)
+
+
+def relayout(np, x, mode, depth=0):
+    """apply `lay` to every array a caller can choose the layout of: bare ndarrays, ndarrays in lists, ktensor / ttensor
+    factor matrices and weights (assignable, and C-ordered after normalize), sptensor / sptenmat subs and vals (what a
+    copy=False construction stores as given).  tensor.data / tenmat.data are always converted to F order by their
+    constructors and are left alone.  Returns the (possibly replaced) object."""
+    if depth > 4:
+        return x
+    if isinstance(x, np.ndarray):
+        return lay(np, x, mode)
+    if isinstance(x, list):
+        for k in range(len(x)):
+            x[k] = relayout(np, x[k], mode, depth + 1)
+        return x
+    if not _is_pyttb(x):
+        return x
+    tn = type(x).__name__
+    if tn in ("ktensor", "ttensor"):
+        x.factor_matrices = [lay(np, f, mode) for f in x.factor_matrices]
+        if tn == "ktensor":
+            x.weights = lay(np, x.weights, mode)
+        else:
+            relayout(np, x.core, mode, depth + 1)
+    elif tn in ("sptensor", "sptenmat"):
+        x.subs = lay(np, x.subs, mode)
+        x.vals = lay(np, x.vals, mode)
+    elif tn == "sumtensor":
+        for p in x.parts:
+            relayout(np, p, mode, depth + 1)
+    return x
